@@ -143,7 +143,7 @@ def analyse(o):
 # the path by which an expansion names std's formatting traits is not part of the property
 FMT_TRAITS = "Display|Debug|Binary|Octal|LowerHex|UpperHex|LowerExp|UpperExp|Pointer"
 PRED_RE = re.compile(r"(\w+) : (?::: )?(?:\w+ :: )*(%s)\b" % FMT_TRAITS)
-DELEG_RE = re.compile(r"\b(?:%s) :: fmt \(" % FMT_TRAITS)
+DELEG_RE = re.compile(r"\b(%s) :: fmt \(" % FMT_TRAITS)
 
 
 def forwards_literal(t, tok):
@@ -312,6 +312,14 @@ def worker(args):
                 # text or `{{`/`}}` escapes next to the placeholder are part of the output: never a bare delegation
                 want_transparent = (o["mods"] == "-") and o.get("lits", 1) == 0
                 is_transparent = ("write !" not in t and "format_args !" not in t) and DELEG_RE.search(t) is not None
+                if want_transparent and is_transparent:
+                    # the delegated call must use the trait the placeholder names (`{_0}` is Display whatever is derived)
+                    called = set(DELEG_RE.findall(t.split(" { ", 1)[1] if " { " in t else t))
+                    want_tr = o["res"].rsplit(":", 1)[1]
+                    if called and called != {want_tr}:
+                        viol.append(("delegated-trait:%s:%s" % (want_tr, ",".join(sorted(called))), "literal %r: std formats the placeholder with %s, derive(%s) delegates to %s::fmt: %s" % (
+                            lit, want_tr, tr, "/".join(sorted(called)), item), {"literal": lit, "std": o, "item": item, "derive": tr, "expansion": t}))
+                        continue
                 if want_transparent != is_transparent:
                     viol.append(("modifiers:" + o["canon"].split("|", 1)[1], "literal %r: std sees modifiers=%s but derive(%s) %s: %s" % (
                         lit, o["mods"], tr, "delegates transparently" if is_transparent else "does not delegate", item),
